@@ -1,5 +1,9 @@
 """C01: plan entry, claim text (MANIFEST) and seeded generators."""
 PLAN_ENTRY = {'stages': [
+        # growth beyond the listed properties (never a verdict): vertex-to-vertex navigation of stations as a state machine
+        {'name': 'station_navigation', 'extra': True,
+         'mc': [{'module': 'MC_StationNav', 'cfg': {'quick': 'MC_StationNav.cfg', 'thorough': 'MC_StationNav.cfg'}, 'workers': 2}],
+         'gens': ['gen_nav'], 'trace': 'Trace_StationNav'},
         {'name': 'stations', 'mc': [{'module': 'MC_C01', 'cfg': {'quick': 'MC_C01_quick.cfg', 'thorough': 'MC_C01_thorough.cfg'}, 'workers': 8}], 'gens': ['gen_c01_random'], 'trace': 'Trace_Curve'}], 'assumptions': ['TLC evaluates the L1 operators of Curve.tla correctly (exact integer arithmetic)', 'harness projection: coordinates/lengths quantised to 2^-16 lattice units, directions to 2^-14, infinitesimals realised as next_up/next_down', 'edges have integer length (axis-parallel / Pythagorean) times a power-of-two scale; irrational edge lengths are outside the exact domain']}
 
 CLAIM = {
@@ -8,3 +12,19 @@ CLAIM = {
     'note': 'Trusted: TLC, harness projection (2^-16 unit quantisation, next_up/next_down for the infinitesimals). Edge lengths are integers times 2^k; irrational edge lengths are not in the exact domain. Vertices where adjacent directions cancel are exempt from the direction clause.',
     'technique': 'TLA+ spec (L1 semantics) + TLC: bounded model checking, TLC-generated cases replayed into engeom, TLC trace validation of recorded observations',
 }
+
+
+def gen_nav(rnd, tier):
+    """open and closed lattice curves (axis-parallel unit steps of length 1..3), every half-lattice arc length"""
+    out = []
+    for _ in range(40 if tier == 'quick' else 600):
+        n = rnd.randint(2, 7)
+        pts = [[0, 0, 0]]
+        d = rnd.choice(((1, 0), (0, 1)))
+        for _k in range(n - 1):
+            d = (d[1], d[0]) if rnd.random() < 0.5 else d
+            st = rnd.randint(1, 3)
+            pts.append([pts[-1][0] + d[0] * st, pts[-1][1] + d[1] * st, 0])
+        L2 = 2 * sum(abs(pts[k + 1][0] - pts[k][0]) + abs(pts[k + 1][1] - pts[k][1]) for k in range(n - 1))
+        out.append({'m': 'curve', 'op': 'nav', 'pts': pts, 'fc': False, 'sc': rnd.choice((0, -4, 3)), 'ls': list(range(0, L2 + 1))})
+    return out
